@@ -255,6 +255,9 @@ def run(rep, facts, tier):
     rule_09_7(rep, fx)
     rule_09_8(rep, fx)
     rule_09_9(rep, fx)
+    # R09.10: skipping an unusable change moves the frontier like a GAP does; the DataReader has to hear of it (seed C09f was reported by ./check C13 only)
+    from rdv import report as _report
+    _report.borrow(rep, facts, tier, 'C13', {'R13.3': 'R09.10'})
 
 
 # hazard key -> (class, reason); sites on the pinned tree, each read and judged
